@@ -4,11 +4,16 @@ Sub-spaces (each enumerated completely):
   grid        all 7 steps x alterations -2..2 x octaves 0..8 (315 pitches, three octaves per part) x all 39
               interval classes x up/down x {Part, Score} argument; only pitches whose result needs at most two
               accidentals are placed in the part (the quantifier's restriction)
+  tie-spell   tie chains whose notes are spelled differently: every sequence of 2 spellings (|alter| <= 2, e.g.
+              G#4~Ab4, B#3~C4; identical spellings included) of every sounding pitch MIDI 60..71 x 39 interval
+              classes x up/down x {Part, Score} argument, all chains that stay in range in one part
+  tie-spell3  the same with chains of 3 notes (four parts of three sounding pitches each; quick runs the hash
+              block VERIF_SEED % 4 of the cases)
   small-core  every sequence of <= 2 slots over {note, other note, chord, rest, unpitched note, the three pitched
               slots also preceded by a grace note} x every choice of ties between adjacent slots x bare /
               decorated (measure, signatures, clef, directions, slur, tuplet, fermata) x 5 argument kinds
               x 6 intervals
-  small-full  the same with <= 3 slots x all 44 interval/direction pairs that keep the pitches used within two
+  small-full  as small-core with <= 3 slots x all 44 interval/direction pairs that keep the pitches used within two
               accidentals (thorough); quick runs the hash block VERIF_SEED % 64 of it
   note        transpose_note / step2pc for all steps x alterations x 39 interval classes (upward)
   interval    Interval(number, quality, direction).semitones for the 39 classes
@@ -32,7 +37,8 @@ from mc import ir
 PID = "C16"
 RULE = (
     "grid: one case per (interval class, direction, argument kind, octave triple), all in-range pitches of the "
-    "triple in one part; small: one case per (slot sequence, ties, decoration, argument kind, interval); "
+    "triple in one part; tie-spell: one case per (interval class, direction, argument kind[, group of three sounding "
+    "pitches]), all in-range chains one after the other in one part; small: one case per (slot sequence, ties, decoration, argument kind, interval); "
     "note/localkey/roman: one case per interval class / (key, degree) with all remaining coordinates looped "
     "inside; non-trivial = at least one pitched note (or one in-range combination) was compared"
 )
@@ -58,6 +64,7 @@ ASSUMPTIONS = [
 ]
 CHUNK = 6
 
+B_TIE3 = 4    # blocks of the thorough three-note enharmonic tie chain space
 B_SMALL = 64  # blocks of the thorough small-score space; quick adds block seed % B_SMALL to its core
 
 
@@ -80,6 +87,29 @@ def _grid_cases():
             for kind in ("part", "score1"):
                 for octs in OCT_TRIPLES:
                     yield {"space": "grid", "iv": [n, q, direction], "arg": kind, "octs": list(octs)}
+
+
+def _tie2_cases():
+    for n, q, _ in M.interval_classes():
+        for direction in ("up", "down"):
+            for kind in ("part", "score1"):
+                yield {"space": "tiespell", "iv": [n, q, direction], "arg": kind, "len": 2, "midis": list(M.TIE_MIDI)}
+
+
+def _tie3_cases(block=None):
+    for i, (n, q, _) in enumerate(M.interval_classes()):
+        for d, direction in enumerate(("up", "down")):
+            for k, kind in enumerate(("part", "score1")):
+                for g, midis in enumerate(M.TIE_GROUPS):
+                    if block is not None:
+                        h = hashlib.sha1(b"tie3,%d,%d,%d,%d" % (i, d, k, g)).digest()
+                        if int.from_bytes(h[:4], "big") % B_TIE3 != block:
+                            continue
+                    yield {"space": "tiespell", "iv": [n, q, direction], "arg": kind, "len": 3, "midis": list(midis)}
+
+
+def _tie3_block(b):
+    return lambda: _tie3_cases(b)
 
 
 def _small_case(seq, ties, deco, kind, iv):
@@ -156,6 +186,18 @@ def spaces(tier, seed):
               "RomanNumeral(local_key, secondary, primary, inversion): 42 keys x 49 x 49 degrees (21 listed Roman numerals + "
               "14 degree letters with a 'b' or '#' in front) x inversions 1..3"),
     ]
+    out.append(Space("tie-spell", _tie2_cases, True,
+                     "tie chains of 2 notes with every pair of spellings (|alter| <= 2, also across the octave line: B#3~C4, "
+                     "identical pairs included) of every sounding pitch MIDI 60..71 (103 chains; only chains whose notes all stay "
+                     "within two accidentals are placed in the part) x 39 interval classes x up/down x argument {Part, Score}; "
+                     "round trip on every case"))
+    tie3 = ("tie chains of 3 notes with every triple of spellings of every sounding pitch MIDI 60..71 (305 chains, "
+            "in four parts of three sounding pitches each) x 39 interval classes x up/down x argument {Part, Score}")
+    if tier == "quick":
+        out.append(Space("tie-spell3-block", _tie3_block(seed % B_TIE3), True,
+                         "hash block %d of %d of the cases of the thorough space tie-spell3 (%s)" % (seed % B_TIE3, B_TIE3, tie3)))
+    else:
+        out.append(Space("tie-spell3", _tie3_cases, True, tie3))
     out.append(Space("small-core", _small_core, True,
                      "all slot sequences of length <= 2 (8 slot kinds: note, other note, chord, rest, unpitched, the three pitched "
                      "ones also with a grace note) x all tie choices x bare/decorated x 5 argument kinds (Part, one-part Score, "
@@ -361,6 +403,8 @@ def eval_case(case):
         return _eval_grid(case)
     if sp == "small":
         return _eval_small(case)
+    if sp == "tiespell":
+        return _eval_tiespell(case)
     if sp == "note":
         return _eval_note(case)
     if sp == "interval":
@@ -434,6 +478,18 @@ def _eval_grid(case):
     out = _check_transposition(res, case["arg"], spec, None, (n, q, direction), {})
     res.nontrivial = bool(pitches)
     res.outcome = "grid %s %d/105 pitches in range" % (out, len(pitches))
+    return res
+
+
+def _eval_tiespell(case):
+    res = CaseResult(states=0, transitions=0, traces=1)
+    n, q, direction = case["iv"]
+    chains = [c for c in M.spelled_chains(case["len"], case["midis"]) if M.chain_in_range(c, n, q, direction)]
+    spec, roles = M.chains_spec(chains)
+    out = _check_transposition(res, case["arg"], spec, None, (n, q, direction), roles)
+    mixed = sum(1 for c in chains if any(p != c[0] for p in c))
+    res.nontrivial = mixed > 0
+    res.outcome = "ties %s %d chains in range, %d enharmonic" % (out, len(chains), mixed)
     return res
 
 
